@@ -281,7 +281,15 @@ func offPolynomialDKGctx(sch scheme, n, t int, victim uint16, which int, delta i
 				selfOK = false
 				return []dmsg{m}
 			}
-			if out, ok := sch.tweakShare(m.data, which, delta); ok {
+			out, ok := sch.tweakShare(m.data, which, delta)
+			if which >= 100 && sch.Name == "ps" {
+				// errors in TWO components that cancel in their sum: +delta on x and -delta on y_(which-100)
+				out, ok = sch.tweakShare(m.data, -1, delta)
+				if ok {
+					out, ok = sch.tweakShare(out, which-100, -delta)
+				}
+			}
+			if ok {
 				tweaked = true
 				m.data = out
 			}
@@ -366,7 +374,7 @@ func unitC18ctx(e common.Env, p *common.Part) {
 }
 
 func unitC18dkg(e common.Env, p *common.Part) {
-	p.Rule = "(ii) directly wired BLS and PS key generations in which exactly one party p (every p in turn) ends up with sk_p+delta (delta added to a share it receives, so that its commitment and reveal are consistent; PS: on x and on each y_j): for t<n every party must return an error, for t=n (any n keys lie on one polynomial of degree n-1) and for delta=0 every party must accept; party identifier sets 1..n, with a gap, offset (11..) and 16-bit multiples of 257 ending at 65535 in turn; plus, at every position and t<n, a party that commits to and reveals a valid key off the polynomial and then reveals its genuine key as well, and a party that deals shares of a polynomial of degree t (every honest party must refuse); distinct key = (scheme, n, t, position, scalar); non-trivial always"
+	p.Rule = "(ii) directly wired BLS and PS key generations in which exactly one party p (every p in turn) ends up with sk_p+delta (delta added to a share it receives, so that its commitment and reveal are consistent; PS: on x and on each y_j, and on x and one y_j with errors that cancel in their sum): for t<n every party must return an error, for t=n (any n keys lie on one polynomial of degree n-1) and for delta=0 every party must accept; party identifier sets 1..n, with a gap, offset (11..) and 16-bit multiples of 257 ending at 65535 in turn; plus, at every position and t<n, a party that commits to and reveals a valid key off the polynomial and then reveals its genuine key as well, and a party that deals shares of a polynomial of degree t (every honest party must refuse); distinct key = (scheme, n, t, position, scalar); non-trivial always"
 	type job struct {
 		sch    scheme
 		n, t   int
@@ -394,6 +402,12 @@ func unitC18dkg(e common.Env, p *common.Part) {
 				}
 			}
 			jobs = append(jobs, job{scheme{Name: "ps", MsgLen: 1}, n, t, 1, -1, 0})
+			// a key that is off the polynomial in two components whose errors cancel (x + d, y_0 - d; x + d, y_last - d)
+			for v := 1; v <= n; v++ {
+				if e.Thorough() || (v+n+t)%2 == 0 {
+					jobs = append(jobs, job{scheme{Name: "ps", MsgLen: 1}, n, t, uint16(v), 100, 5}, job{scheme{Name: "ps", MsgLen: 1}, n, t, uint16(v), 101, 9})
+				}
+			}
 		}
 	}
 	// the off-polynomial key reaches the others by a detour: the party commits to and reveals a valid key that is off the polynomial
